@@ -1,6 +1,7 @@
 import Tcs.Model.History
 import Tcs.Model.Sem.Fault
 import Tcs.Model.Sem.Conc
+import Tcs.Model.Config
 import Tcs.Generated.ParamsImpl
 open Tcs
 
@@ -368,7 +369,21 @@ def step (ctx : Ctx) (lhs : String) (implObs : String := "") : Ctx × String :=
   | "illegal" :: _ => (ctx, "")
   | "seq" :: _ => (ctx, "")
   | "crash" :: _ => (ctx, "")
+  | "config" :: rest =>
+    let fl (k : String) : List String := match kvOf rest k with | none | some "-" => [] | some v => v.splitOn ";"
+    let en (k : String) : Option String := match kvOf rest k with | none | some "-" => none | some "(empty)" => some "" | some v => some v
+    let cli : Cli := { listenFlag := fl "l", listenEnv := en "L", dataDirFlag := fl "d", dataDirEnv := en "D",
+                       allowFlag := fl "c", allowEnv := en "C", versionsFlag := fl "sv", versionsEnv := en "SV",
+                       daysFlag := fl "sd", daysEnv := en "SD" }
+    match resolve cli with
+    | none => (ctx, "usage-error")
+    | some a =>
+      let h := httpCfgOf a
+      let al := match a.allow with | none => "none" | some l => if l.isEmpty then "empty" else ",".intercalate (l.map showU)
+      ({ ctx with st := .sql {}, sys := { cfg := h.cfg, params := Params.impl, ensure := ctx.sys.ensure }, allow := a.allow },
+       s!"ok listen={",".intercalate a.listen} dir={a.dataDir} days={a.snapshotDays} versions={a.snapshotVersions} allow={al}")
   | "pool" :: _ => (ctx, "")
+  | ["restart"] => (ctx, "ok")
   | "dump" :: c :: rest =>
     match uuidOf c with
     | none => (ctx, "bad-op")
